@@ -3745,7 +3745,7 @@ class NetCDFWrite(IOWrite):
                 # This auxiliary coordinate needs to be written as a
                 # scalar coordinate variable
                 coordinates = self._write_scalar_coordinate(
-                    f, key, aux_coord, axis, coordinates
+                    f, key, aux_coord, axes[0], coordinates
                 )
 
         # ------------------------------------------------------------
